@@ -277,6 +277,43 @@ func runC05(c *mon.Ctx) {
 		h.run("json", "hand-made-json", []byte(s))
 	}
 	c.Sig("hand-made")
+	// member values nested 1..70 (and 100, 1000, 5000) containers deep - arrays,
+	// objects, alternating - under known and unknown member names, alone and inside a
+	// valid document of either profile / the extension (seeded fault C05-v: a
+	// fixed-size nesting stack with an off-by-one guard at depth 32)
+	{
+		depths := []int{100, 1000, 5000}
+		for d := 1; d <= 70; d++ {
+			depths = append(depths, d)
+		}
+		for di, d := range depths {
+			if !c.Mine(di) {
+				continue
+			}
+			vals := []string{strings.Repeat("[", d) + strings.Repeat("]", d), strings.Repeat(`{"a":`, d) + "1" + strings.Repeat("}", d)}
+			alt := ""
+			for i := 0; i < d; i++ {
+				alt += []string{`[`, `{"k":`}[i%2]
+			}
+			alt += "0"
+			for i := d - 1; i >= 0; i-- {
+				alt += []string{`]`, `}`}[i%2]
+			}
+			vals = append(vals, alt)
+			for _, v := range vals {
+				for _, name := range []string{"x-unknown", "psa-software-components", "psa-nonce", "timestamp", "a", "b", "l", "i", "m", "p", "k1"} {
+					h.run("json", "nested-member-value", []byte(`{"`+name+`":`+v+`}`))
+					h.run("json", "nested-member-value", []byte(`{"b":"x","d":1,"y":"y","q":1,"r":"r","u":1,"n":1,"`+name+`":`+v+`}`))
+				}
+				for p := 1; p <= 2; p++ {
+					doc := string(g.Valid(p).WireJSON())
+					h.run("json", "nested-member-value-in-valid-document", []byte(doc[:len(doc)-1]+`,"x-unknown":`+v+`}`))
+					h.run("json", "nested-member-value-in-valid-document", []byte(`{"x-unknown":`+v+`,`+doc[1:]))
+				}
+			}
+			c.Sig(fmt.Sprintf("json-nesting|%d", d))
+		}
+	}
 
 	// (A0) systematically: every claims item of the corpus x every claim name /
 	// key of either profile (present or not) := each special value
